@@ -89,27 +89,86 @@ class C11(Prop):
             leaves.append(log)
             return StreamFailFast(lambda: log.append(['fired', ctx['call']]))
         if t[0] == 'copy':
-            return CopyStreamResult([self.build(c, leaves, ctx) for c in t[1:]])
+            return CopyStreamResult(self.targets([self.build(c, leaves, ctx) for c in t[1:]], ctx))
         if t[0] == 'tagger':
             add, dis = t[1], t[2]
             kids = [self.build(c, leaves, ctx) for c in t[3:]]
-            return StreamTagger(kids, add=S.tagset(add) if add else None, discard=[S.tag(n) for n in dis] if dis else None)
+            return StreamTagger(self.targets(kids, ctx), add=self.tag_arg(add, ctx), discard=self.tag_arg(dis, ctx))
         if t[0] == 'stamp':
             return TimestampingStreamResult(self.build(t[1], leaves, ctx))
         if t[0] == 'queue':
             return StreamToQueue(ForwardQueue(self.build(t[2], leaves, ctx)), ''.join(chr(c) for c in t[1]))
         raise ValueError(t)
 
+    #: a decorator behaves by the VALUE its constructor arguments had at construction.  How the arguments are handed over is a
+    #: realisation detail of the input: the kind cycles per argument, mutable ones are changed after construction and between events
+    KINDS = ['scratch', 'set', 'list', 'frozenset', 'generator', 'tuple', 'scratch', 'list']
+    #: CopyStreamResult / StreamTagger used to keep the caller's `targets` LIST by reference (`self.targets = targets`): a list that
+    #: was changed afterwards changed the decorator (repaired in /repo, see KNOWN_FINDINGS.txt); the realisation is always generated
+    MUTATE_TARGETS = True
+
+    def tag_arg(self, ns, ctx):
+        """the `add` / `discard` argument of a StreamTagger for the tags `ns`"""
+        if not ns and ctx['arg'] % 3:
+            ctx['arg'] += 1
+            return None
+        kind = self.KINDS[(ctx['arg'] + ctx['salt']) % len(self.KINDS)]
+        ctx['arg'] += 1
+        tags = [S.tag(n) for n in ns]
+        if kind == 'scratch':
+            # a builder that re-uses ONE scratch set for all the taggers it makes
+            ctx['scratch'].clear()
+            ctx['scratch'].update(tags)
+            return ctx['scratch']
+        if kind == 'set':
+            v = set(tags)
+            ctx['mutables'].append(v)
+            return v
+        if kind == 'list':
+            v = list(tags)
+            ctx['mutables'].append(v)
+            return v
+        if kind == 'frozenset':
+            return frozenset(tags)
+        if kind == 'tuple':
+            return tuple(tags)
+        return (t for t in tags)          # a one-shot iterator
+
+    def targets(self, kids, ctx):
+        kind = (ctx['arg'] + ctx['salt']) % 3
+        ctx['arg'] += 1
+        if kind == 0:
+            return tuple(kids)
+        if self.MUTATE_TARGETS and kind == 1:
+            ctx['target_lists'].append(kids)
+        return kids
+
+    def disturb(self, ctx):
+        """the caller goes on using the objects it passed to the constructors"""
+        ctx['round'] += 1
+        junk = S.tag(3 if ctx['round'] % 2 else 0)
+        for v in ctx['mutables'] + [ctx['scratch']]:
+            if isinstance(v, set):
+                v.clear()
+                v.add(junk)
+            else:
+                del v[:]
+                v.append(junk)
+        for l in ctx['target_lists']:
+            del l[:]
+
     def run_impl(self, inp):
         tree, objs, calls = inp
         try:
             clock = S.Clock()
             objects = [S.tagset(es, frozen) for frozen, es in objs]
-            ctx = {'call': 0, 'clock': clock, 'objects': objects}
+            ctx = {'call': 0, 'clock': clock, 'objects': objects, 'arg': 0, 'salt': len(calls) + len(objs), 'scratch': set(),
+                   'mutables': [], 'target_lists': [], 'round': 0}
             leaves = []
             root = self.build(tree, leaves, ctx)
             caller = []
             for n, c in enumerate(calls):
+                self.disturb(ctx)          # between construction and the first call, and between calls
                 ctx['call'] = n
                 if c == 'start':
                     root.startTestRun()
